@@ -23,7 +23,8 @@ RULE = ("scenarios of 1..6 overlapping DEN requests (emergency-vehicle applicati
         "schedule with more than one message was compared.")
 ASSUMPTIONS = ["virtual sleep: the repetition threads are real, their sleeps are released in wake-up order by the harness; a 20 s wall-clock watchdog ends a run as inconclusive",
                "the emergency-vehicle application's fixed 1 s interval is varied by setting its public attribute before triggering"]
-REQUIRED_COUNTERS = ["events", "denms", "schedules_compared", "multi_message_schedules", "action_id_pairs_compared", "received_denms_in_ldm_checked"]
+REQUIRED_COUNTERS = ["events", "denms", "schedules_compared", "multi_message_schedules", "action_id_pairs_compared", "received_denms_in_ldm_checked",
+                     "S.schedules", "S.preempted_schedules", "S.event_schedules_judged"]
 
 
 class Lockstep:
@@ -313,7 +314,147 @@ def run_reception(spec, res):
         clock.uninstall()
 
 
+# ------------------------------------------------------------------------------------------ part S: schedules
+# Overlapping events run in concurrent repetition threads of ONE DENMTransmissionManagement.  Part S puts those threads
+# under the controlled scheduler (vf/sched.py): the threads are actors, time.sleep is virtual, and the interleaving of the
+# bytecode instructions of denm_transmission_management.py is chosen (every single preemption, sampled pairs, random).
+_INS = None
+
+
+def sched_scenario(rng):
+    n = rng.choice((2, 2, 3))
+    interval = rng.choice((100, 100, 250))
+    return {"part": "S", "station_id": rng.randrange(1, 1 << 32),
+            "events": [{"interval_ms": interval, "duration_ms": interval * rng.choice((2, 3)), "lat": round(rng.uniform(-80, 80), 5), "lon": round(rng.uniform(-170, 170), 5)}
+                       for _ in range(n)]}
+
+
+def sched_execute(c, plan, policy, log_from, instr_points):
+    global _INS
+    from vf import sched as S
+    from vf.vclock import VClock
+    from flexstack.facilities.decentralized_environmental_notification_service import denm_transmission_management as dtm
+    from flexstack.facilities.decentralized_environmental_notification_service.denm_coder import DENMCoder
+    from flexstack.facilities.ca_basic_service.cam_transmission_management import VehicleData
+    from flexstack.applications.road_hazard_signalling_service.emergency_vehicle_approaching_service import EmergencyVehicleApproachingService
+    if _INS is None:
+        _INS = S.Instrument([dtm])
+    clock = VClock().install()
+    t_base = clock.t
+    saved_time, saved_threading = dtm.time, dtm.threading
+    sc = S.Scheduler(instr_points=instr_points)
+
+    def on_time(v):
+        clock.t = t_base + v
+    sc.on_time = on_time
+    dtm.time = types.SimpleNamespace(sleep=S.sched_sleep, time=clock.now)
+    dtm.threading = types.SimpleNamespace(Thread=S.SchedThread, Lock=S.Lock, RLock=S.RLock)
+    out = {"reqs": [], "owner": {}}
+    try:
+        coder = _CODER[0] if _CODER else _CODER.append(DENMCoder()) or _CODER[0]
+
+        class Rec:
+            def btp_data_request(self, request):
+                a = sc.by_ident.get(threading.get_ident())
+                out["reqs"].append((sc.vtime, a.name if a else "main", request))
+                if a is not None:
+                    sc.sync_point(a, "transmit")
+
+            def register_indication_callback_btp(self, port, callback):
+                pass
+        vd = VehicleData(station_id=c["station_id"], station_type=10)
+        tm = dtm.DENMTransmissionManagement(Rec(), coder, vd)
+        den = types.SimpleNamespace(denm_transmission_management=tm)
+
+        def requester():
+            for i, ev in enumerate(c["events"]):
+                svc = EmergencyVehicleApproachingService(den, duration=ev["duration_ms"])
+                svc.denm_interval = ev["interval_ms"]
+                n0 = sc.thread_seq
+                svc.trigger_denm_sending({"lat": ev["lat"], "lon": ev["lon"]})
+                if sc.thread_seq == n0 + 1:
+                    out["owner"][i] = [a.name for a in sc.actors][-1]
+        sc.add_actor("requester", requester)
+        out["outcome"] = sc.run(plan=plan, policy=policy, log_from=log_from)
+        out["sched"] = sc
+    finally:
+        dtm.time, dtm.threading = saved_time, saved_threading
+        clock.uninstall()
+    return out
+
+
+_CODER = []
+
+
+def sched_one(c, plan, policy, res, mode, log_from=None, instr_points=True):
+    from vf import sched as S
+    out = sched_execute(c, plan, policy, log_from, instr_points)
+    sc, oc = out["sched"], out["outcome"]
+    res.count("S.schedules")
+    if oc.get("timeout"):
+        res.count("S.cut_short")
+        return sc
+    coder = _CODER[0]
+    ctx = {"scenario": c, "devs": sorted(sc.devs.items()), "instr_points": instr_points}
+    if oc["preemptions"]:
+        res.count("S.preempted_schedules")
+    res.case(("S", repr(c["events"]), instr_points, S.switch_signature(sc)), nontrivial=bool(oc["preemptions"]))
+    if oc["deadlock"]:
+        res.violation("C17:S:deadlock", f"{oc.get('blocked')}", ctx)
+        return sc
+    for name, e in oc["exceptions"]:
+        res.violation(f"C17:S:repetition-thread-raises-{type(e).__name__}", f"{name}: {e!r}", ctx)
+    if oc["exceptions"]:
+        return sc
+    per_actor = {}
+    for (t, who, req) in out["reqs"]:
+        res.count("S.denms")
+        d = coder.decode(req.data)
+        per_actor.setdefault(who, []).append((t, d, req))
+    ids_of_event = {}
+    for i, ev in enumerate(c["events"]):
+        who = out["owner"].get(i)
+        recs = per_actor.get(who, [])
+        want = math.ceil(ev["duration_ms"] / ev["interval_ms"])
+        res.count("S.event_schedules_judged")
+        if len(recs) != want:
+            res.violation(f"C17:number-of-denms-differs[{'more' if len(recs) > want else 'fewer'}][concurrent-events]",
+                          f"event {i}: {len(recs)} DENMs handed over by its repetition thread, expected ceil(T/i) = {want}", ctx)
+        ids = set()
+        for (t, d, req) in recs:
+            mg = d["denm"]["management"]
+            ids.add((mg["actionId"]["originatingStationId"], mg["actionId"]["sequenceNumber"]))
+            ep = mg["eventPosition"]
+            if abs(ep["latitude"] - int(ev["lat"] * 1e7)) > 1 or abs(ep["longitude"] - int(ev["lon"] * 1e7)) > 1:
+                res.violation("C17:event-position-differs-from-request[concurrent-events]", f"event {i}: DENM carries {ep['latitude']},{ep['longitude']}, request {ev['lat']},{ev['lon']}", ctx)
+            if req.gn_area.latitude != ep["latitude"] or req.gn_area.longitude != ep["longitude"]:
+                res.violation("C17:destination-circle-not-centred-on-event-position[concurrent-events]", f"event {i}", ctx)
+            if mg["actionId"]["originatingStationId"] != c["station_id"] or d["header"]["stationId"] != c["station_id"]:
+                res.violation("C17:station-identity-differs[concurrent-events]", f"event {i}", ctx)
+        if len(ids) > 1:
+            res.violation("C17:action-identifier-changes-within-an-event[concurrent-events]", f"event {i}: {sorted(ids)}", ctx)
+        ids_of_event[i] = ids
+    for i, j in itertools.combinations(sorted(ids_of_event), 2):
+        res.count("S.action_id_pairs_compared")
+        if ids_of_event[i] & ids_of_event[j]:
+            res.violation("C17:distinct-events-share-an-action-identifier[concurrent-events]", f"events {i} and {j}: {sorted(ids_of_event[i] & ids_of_event[j])}", ctx)
+    return sc
+
+
+def run_sched(spec, res):
+    from vf import explore
+    c = spec["scenario"]
+    rng = random.Random(spec["seed"])
+
+    def run_one(plan, policy, mode_, log_from, instr_points):
+        return sched_one(c, plan, policy, res, mode_, log_from=log_from, instr_points=instr_points)
+    explore.explore(run_one, res, spec["mode"], spec["budget"], spec["shard"], spec["nshards"], rng)
+
+
 def run_shard(spec, res):
+    if spec.get("part") == "S":
+        run_sched(spec, res)
+        return
     if spec.get("part") == "rx":
         run_reception(spec, res)
         return
@@ -327,13 +468,22 @@ def run_shard(spec, res):
 
 
 def shards(tier, seed):
+    rng = random.Random(seed * 733 + 17)
+    sched = []
+    for k in range(2 if tier == "quick" else 6):
+        c = sched_scenario(rng)
+        for mode, nsh, budget in (("instr", 2, 400 if tier == "quick" else 4000), ("random", 1, 150 if tier == "quick" else 3000)):
+            for sh in range(nsh):
+                sched.append({"part": "S", "scenario": c, "mode": mode, "shard": sh, "nshards": nsh, "budget": budget, "seed": seed * 739 + k * 7 + sh})
     if tier == "thorough":
-        return [{"seed": seed * 127 + i, "cases": 400} for i in range(14)] + [{"part": "rx", "seed": seed * 131 + i, "cases": 5000} for i in range(2)]
-    return [{"seed": seed * 127 + i, "cases": 10} for i in range(7)] + [{"part": "rx", "seed": seed * 131, "cases": 300}]
+        return [{"seed": seed * 127 + i, "cases": 400} for i in range(14)] + [{"part": "rx", "seed": seed * 131 + i, "cases": 5000} for i in range(2)] + sched
+    return [{"seed": seed * 127 + i, "cases": 10} for i in range(7)] + [{"part": "rx", "seed": seed * 131, "cases": 300}] + sched
 
 
 def replay(case, res):
-    if "scenario" in case:
+    if "devs" in case:
+        sched_one(case["scenario"], tuple(tuple(d) for d in case["devs"]), None, res, "replay", instr_points=case.get("instr_points", True))
+    elif "scenario" in case:
         run_case(case["scenario"], res)
     else:
         run_reception({"seed": 0, "cases": 300}, res)
